@@ -6,6 +6,7 @@ use kvc::util::Opts;
 mod c01;
 mod c02;
 mod c14;
+mod c41;
 mod c42;
 mod fmodel;
 mod schemadump;
@@ -21,6 +22,7 @@ fn main() {
         "c01" => c01::run(&opts),
         "c02" => c02::run(&opts),
         "c14" => c14::run(&opts),
+        "c41" => c41::run(&opts),
         "c42" => c42::run(&opts),
         "schema" => schemadump::run(&opts),
         other => {
